@@ -53,6 +53,10 @@ def run(tier, seed, res, lean):
     comp = pmap(suite_compile.run_shard, [(seed * 31337 + i, 40 if tier == 'quick' else 300) for i in range(16)])
     for b in [b for o in comp for b in o[1]][:4]:
         res.violations.append(Violation('c01-compile-order', b['msg'][:500], {'suite': 'S-COMPILE', **b}))
+    # fields defined by hash_by_value(prepare=..., compute=...), with a pure and an @impure prepare step: the call returns g(f(x))
+    from .. import suite_impure
+    for b in [b for b in suite_impure.run_combined() if b['kind'] == 'c01'][:2]:
+        res.violations.append(Violation('c01-combined-by-value', b['msg'][:300], {'suite': 'S-IMPURE/combined', **b}))
     stats = merge_stats([o[0] for o in outs])
     bad = [b for o in outs for b in o[1]]
     oracle_bad = [b for o in outs for b in o[2]]
